@@ -14,12 +14,14 @@ from . import c17
 PROPERTY = "C16"
 LEVEL = "exploration"
 RULE = (
-    "Hypothesis cubes with 3..12 sub-cubes (one or two multi-axis dimensions), N <= 8 rows, both cube types, 1..3 "
+    "Hypothesis cubes with 3..12 sub-cubes (one or two multi-axis dimensions), N <= 8 rows, both cube types, 1..4 "
     "aggregate-function objects (count / valid_count / sum / mean, plus stddev, quantile, min, max, covariance, "
     "corrcoef on the array cube), cube.parallel forced on, pool sizes 1..16. det: the thread pool is replaced by "
     "DetPool, which runs the worker tasks on real threads of which exactly one is runnable, switching only at "
     "bytecode boundaries inside catii code according to a Hypothesis-drawn schedule (a priority order plus up to 6 "
-    "(global step, victim) pre-emptions, or a seeded per-opcode switch probability). real: the real ThreadPool "
+    "(global step, victim) pre-emptions, or a seeded per-opcode switch probability of 0.1..50 %, or a 'stores' schedule "
+    "that switches with 10..70 % probability right before every opcode writing an attribute / item / global and rarely "
+    "elsewhere - races need a switch between two writes). real: the real ThreadPool "
     "under sys.setswitchinterval(1e-6), 40 repetitions per case. Oracle: every output array is bit-for-bit (bytes, "
     "dtype, shape) the serial result of a fresh twin cube and fresh function objects. Non-trivial (det) = at least "
     "2 workers alive and at least one pre-emption actually taken; (real) = pool size >= 2 with >= 3 sub-cubes. "
@@ -54,18 +56,27 @@ def cases(draw, tier, mode):
     f = draw(Q.fact_specs(N, dtypes=("float",)))
     case["fact"] = f
     case["weights"] = draw(Q.weight_specs(N, scalar_ok=False, zero_ok=False, kinds=("none", "array")))
-    n = draw(st.integers(1, 3))
+    n = draw(st.integers(1, 4))
     aggs = c17.CAGGS if case["kind"] == "ccube" else c17.XAGGS
     case["funcs"] = [{"agg": draw(st.sampled_from(aggs)), "ignore": draw(st.booleans()),
                       "rma": draw(st.sampled_from(["nan", ["tuple", 0], "plain"])),
                       "prob": draw(st.sampled_from([0.0, 0.5, 1.0])), "weighted": draw(st.booleans()), "tracing": draw(st.sampled_from([None, True, False]))}
                      for _ in range(n)]
+    if n >= 2 and draw(st.integers(0, 2)) == 0:
+        # several parameterisations of ONE aggregate computed together (three quartiles, weighted and unweighted sum...)
+        for f in case["funcs"][1:]:
+            f["agg"] = case["funcs"][0]["agg"]
     case["poolsize"] = draw(st.one_of(st.integers(2, 4), st.integers(2, 16), st.integers(1, 16)))
     if mode == "det":
         prio = draw(st.permutations(list(range(16))))
-        if draw(st.integers(0, 3)) == 0:
-            case["schedule"] = {"kind": "random", "prio": prio, "prob_per_mille": draw(st.integers(1, 60)),
+        which = draw(st.integers(0, 4))
+        if which == 0:
+            case["schedule"] = {"kind": "random", "prio": prio,
+                                "prob_per_mille": draw(st.one_of(st.integers(1, 60), st.integers(60, 500))),
                                 "seed": draw(st.integers(0, 10 ** 6))}
+        elif which <= 2:
+            case["schedule"] = {"kind": "stores", "prio": prio, "store_per_mille": draw(st.integers(100, 700)),
+                                "prob_per_mille": draw(st.integers(0, 20)), "seed": draw(st.integers(0, 10 ** 6))}
         else:
             pts = draw(st.lists(st.tuples(st.integers(1, 6000), st.integers(0, 15)), max_size=6))
             case["schedule"] = {"kind": "preempt", "prio": prio, "points": [list(p) for p in pts]}
@@ -126,9 +137,14 @@ def large_cases(draw, tier, mode):
                       "weighted": draw(st.booleans()), "tracing": draw(st.sampled_from([None, True, False]))} for _ in range(draw(st.integers(1, 3)))]
     case["poolsize"] = draw(st.integers(2, 6))
     if mode == "det":
-        if draw(st.booleans()):
+        which = draw(st.integers(0, 2))
+        if which == 0:
             case["schedule"] = {"kind": "random", "prio": draw(st.permutations(list(range(16)))),
                                 "prob_per_mille": draw(st.integers(5, 80)), "seed": draw(st.integers(0, 10 ** 6))}
+        elif which == 1:
+            case["schedule"] = {"kind": "stores", "prio": draw(st.permutations(list(range(16)))),
+                                "store_per_mille": draw(st.integers(100, 700)),
+                                "prob_per_mille": draw(st.integers(0, 20)), "seed": draw(st.integers(0, 10 ** 6))}
         else:
             pts = draw(st.lists(st.tuples(st.integers(1, 20000), st.integers(0, 15)), min_size=3, max_size=12))
             case["schedule"] = {"kind": "preempt", "prio": draw(st.permutations(list(range(16)))),
@@ -256,7 +272,7 @@ SUBS = [
         weight=6),
     Sub("real_large", check, strategy=lambda tier: large_cases(tier, "real"), examples={"quick": 16, "thorough": 600},
         shards={"quick": 4, "thorough": 8}, weight=8),
-    Sub("det", check, strategy=lambda tier: cases(tier, "det"), examples={"quick": 1600, "thorough": 100000},
+    Sub("det", check, strategy=lambda tier: cases(tier, "det"), examples={"quick": 6400, "thorough": 200000},
         weight=5),
     Sub("real", check, strategy=lambda tier: cases(tier, "real"), examples={"quick": 48, "thorough": 3000},
         shards={"quick": 4, "thorough": 8}, weight=9),
